@@ -32,6 +32,7 @@ func runC10(p *Prog, r *Result) {
 	r.Rule("R10a", "ParseError is constructed only in posErr with Incomplete = (tok == _EOF && Incomplete()); LangError only in checkLang; p.err is stored only in errPass and fill", 5)
 	r.Rule("R10b", "every increment of openNodes/openBquotes/openBquoteDbls is followed by its decrement on every path to the exit", 4)
 	r.Rule("R10c", "every newLit() is followed on every path to the function exit by endLit(), litBs = nil, another newLit(), or an error report", 15)
+	r.Rule("R10e", "every Parser field is reset between parses or classified (shared with C08 R08a): state that feeds Incomplete or error positions cannot leak from an earlier parse", 40)
 	r.Rule("R10d", "fill() advances the offset base exactly once per call (the update is not on a cycle)", 1)
 
 	g := buildRefGraph(p)
@@ -120,6 +121,19 @@ func runC10(p *Prog, r *Result) {
 
 	// ---- R10b
 	checkCountersRule(p, r, pkg, "R10b")
+	// ---- R10e
+	{
+		sub := newResult(r.Prop, r.prog)
+		ps, _ := resetSpecs()
+		checkResetSpec(p, sub, pkg, ps)
+		for _, o := range sub.Obls {
+			if o.Rule == "R08a" {
+				o.Rule = "R10e"
+				r.Obls = append(r.Obls, o)
+			}
+		}
+		r.Fatal = append(r.Fatal, sub.Fatal...)
+	}
 
 	// ---- R10c
 	fg := newFuncGraphs(pkg)
